@@ -146,12 +146,20 @@ class Mailbox:
         # if the nameplate is still allocated we'll get a foreign-key
         # failure when trying to delete the mailbox, so get rid of
         # those first
-        db.execute("DELETE FROM `nameplate_sides` WHERE `nameplates_id` IN"
-                   " (SELECT `id` FROM `nameplates`"
-                   "  WHERE `app_id`=? AND `mailbox_id`=?)",
-                   (self._app_id, self._mailbox_id))
-        db.execute("DELETE FROM `nameplates` WHERE `app_id`=? AND `mailbox_id`=?",
-                   (self._app_id, self._mailbox_id))
+        np_rows = db.execute("SELECT * FROM `nameplates`"
+                             " WHERE `app_id`=? AND `mailbox_id`=?",
+                             (self._app_id, self._mailbox_id)).fetchall()
+        for np_row in np_rows:
+            np_side_rows = db.execute("SELECT * FROM `nameplate_sides`"
+                                      " WHERE `nameplates_id`=?",
+                                      (np_row["id"],)).fetchall()
+            db.execute("DELETE FROM `nameplate_sides` WHERE `nameplates_id`=?",
+                       (np_row["id"],))
+            db.execute("DELETE FROM `nameplates` WHERE `id`=?", (np_row["id"],))
+            if self._usage_db:
+                # the nameplate is retired together with its mailbox
+                self._app._summarize_nameplate_and_store(np_side_rows, when,
+                                                         pruned=False)
         # remove mailbox content
         db.execute("DELETE FROM `messages` WHERE `mailbox_id`=?",
                    (self._mailbox_id,))
